@@ -254,3 +254,23 @@ op("common-named-covariance-block-write", ["C09", "C05"], COMMON, r"            
    "            named = [idx for idx, key in enumerate(allowed_keys) if key in kwargs]\n            if named:\n                self.data[np.ix_(named, named)] = [kwargs[allowed_keys[idx]] for idx in named]\n")
 op("cpp-subs-from-free-symbols", ["C15"], CPP, r"( +)expr_after = expr_before\.subs\(subs_set\)",
    r"\1renames = dict(subs_set)\n\1expr_after = expr_before.subs([(s_, renames[s_]) for s_ in expr_before.free_symbols if s_ in renames])")
+
+# ---------------------------------------------------------------- round 7: in-place library calls, coercion, data entry, rewriting functions, narrow counters, config dict, memo keys
+op("py-cov-check-eig-overwrites", ["C04"], PY, r"covariance_eigenvalues = np\.linalg\.eig\(covariance\)\[0\]", "import scipy.linalg\n    covariance_eigenvalues = scipy.linalg.eigvalsh(covariance, overwrite_a=True)")
+op("py-cov-check-abs-out", ["C04"], PY, r"(    covariance_eigenvalues = np\.linalg\.eig\(covariance\)\[0\])", r"    np.round(covariance, 12, out=covariance)\n\1")
+op("cpp-sensor-model-sympified", ["C14"], CPP, r"            expr_before = model\n(            expr_after = expr_before\.subs\(subs_set\)\n            yield f\"double \{predicted_reading\}\")", r"            import sympy\n            expr_before = sympy.sympify(model)\n\1")
+op("py-sensor-model-sympified", ["C14"], PY, r"statements=\[sensor_model\[k\] for k in self\.readings\]", "statements=[sympy.sympify(sensor_model[k]) for k in self.readings]")
+op("sk-force-ndarray-squeeze", ["C16"], PY, r"    assert isinstance\(mat, np\.ndarray\)\n\n    return mat", "    assert isinstance(mat, np.ndarray)\n\n    return np.squeeze(mat)")
+op("sk-force-ndarray-atleast2d", ["C16"], PY, r"    assert isinstance\(mat, np\.ndarray\)\n\n    return mat", "    assert isinstance(mat, np.ndarray)\n\n    return np.atleast_2d(mat)")
+op("sk-force-ndarray-list-ravel", ["C16"], PY, r"    if isinstance\(mat, list\):\n        return np\.array\(mat\)", "    if isinstance(mat, list):\n        return np.array(mat).ravel()")
+op("py-jacobian-powdenest", ["C03", "C04"], PY, r"statements=\[expr for expr in symbolic_process_jacobian\]", "statements=[sympy.powdenest(expr, force=True) for expr in symbolic_process_jacobian]")
+op("py-sensor-jacobian-nsimplify", ["C03", "C05"], PY, r"statements=\[expr for expr in symbolic_sensor_jacobian\]", "statements=[sympy.nsimplify(expr, rational=True) for expr in symbolic_sensor_jacobian]")
+op("py-model-cancel", ["C01"], PY, r"(from sympy import Matrix, Symbol, cse, simplify)", r"\1, cancel", also=[(PY, r"statements=\[symbolic_model\.state_model\[a\] for a in self\.arglist_state\]", "statements=[cancel(symbolic_model.state_model[a]) for a in self.arglist_state]")])
+op("hdr-count-int", ["C10", "C11"], HDR, r"size_t expected_iterations = static_cast<size_t>\(", "int expected_iterations = static_cast<int>(")
+op("hdr-counter-uint32", ["C10"], HDR, r"for \(size_t count = 0; count < expected_iterations; \+\+count\)", "for (uint32_t count = 0; count < expected_iterations; ++count)")
+op("hdr-count-cast-unsigned", ["C10"], HDR, r"size_t expected_iterations = static_cast<size_t>\(", "size_t expected_iterations = static_cast<unsigned>(")
+op("py-block-fills-user-modules", ["C17"], PY, r"(    def _compile\(self\):\n        prefix = \[\]\n)", r"\1        for entry in self._config.python_modules:\n            if isinstance(entry, dict):\n                entry.setdefault('sec', None)\n")
+op("py-block-sorts-arglist", ["C17"], PY, r"(    def _compile\(self\):\n        prefix = \[\]\n)", r"\1        self._arglist.sort(key=str)\n")
+op("cpp-sensor-jacobian-memo-by-names", ["C02"], CPP, r"(        self\.sensorlist = sorted\()", r"        self._jac_memo = {}\n\1",
+   also=[(CPP, r"        yield from BasicBlock\(\n            statements=self\._translate_sensor_jacobian_impl\(sensor_model_mapping\),\n            indent=4,\n            config=self\.config,\n        \)\.compile\(\)",
+          "        key = tuple(sorted(sensor_model_mapping))\n        if key not in self._jac_memo:\n            self._jac_memo[key] = list(BasicBlock(\n                statements=self._translate_sensor_jacobian_impl(sensor_model_mapping),\n                indent=4,\n                config=self.config,\n            ).compile())\n        yield from self._jac_memo[key]")])
